@@ -1,6 +1,6 @@
 (** Pins for C15: the statements written out, so that no theorem is weakened quietly. *)
 From TucModel Require Import Base.Bytes Base.ListX Model.Bounds Model.CutBytes Model.Scan Model.Opt
-     Model.CutStr Spec.Resolve Proofs.BoundsFacts Proofs.C06 Proofs.C15 Properties.C15.
+     Model.CutStr Spec.Resolve Proofs.BoundsFacts Proofs.C06 Proofs.C15 Proofs.C01More Proofs.C09More Proofs.C15More Properties.C15.
 
 
 Check C15_complement_of_a_bound :
@@ -22,3 +22,18 @@ Check C15_nothing_left_out_fails :
     Forall (fun x => match x with Bound b => try_into_range b n = Some (0%nat, n) | Filler _ => True end) l ->
     complement_list l n = None.
 Print Assumptions C15_nothing_left_out_fails.
+
+Check C15_complement_is_the_explicit_request :
+  forall (o : opt) (line : bytes) (fields : list mtch) (u : ublist),
+    o_complement o = true ->
+    complement_list (items (o_bounds o)) (length fields) = Some u ->
+    finish_record o line fields = finish_record (with_bounds u (without_complement o)) line fields.
+Print Assumptions C15_complement_is_the_explicit_request.
+
+Check C15_nothing_left_fails_the_record :
+  forall (o : opt) (line : bytes) (fields : list mtch),
+    o_complement o = true ->
+    complement_list (items (o_bounds o)) (length fields) = None ->
+    (o_only_delimited o && Nat.eqb (length fields) 1) = false ->
+    finish_record o line fields = RErr.
+Print Assumptions C15_nothing_left_fails_the_record.
